@@ -204,3 +204,39 @@ func (w *WrapPP) GetEarlyBeanReference(c any, name string) (any, error) {
 	}
 	return c, nil
 }
+
+
+// PlainWrapPP substitutes around initialization only and is NOT instantiation-aware: it implements just
+// PostProcessBeforeInitialization / PostProcessAfterInitialization (no early-reference callback at all).
+type PlainWrapPP struct {
+	Plan   map[string]WrapPlan
+	serial int
+	Made   []*zoo.W
+}
+
+func (w *PlainWrapPP) Naming() string { return "plain-wrap-pp" }
+
+func (w *PlainWrapPP) PostProcessBeforeInitialization(c any, name string) (any, error) {
+	if w.Plan[name].Before == WrapNew {
+		if _, isW := c.(*zoo.W); !isW {
+			w.serial++
+			x := &zoo.W{Target: c, TargetID: -1, Serial: 1000 + w.serial, When: "before"}
+			w.Made = append(w.Made, x)
+			return x, nil
+		}
+	}
+	return c, nil
+}
+
+func (w *PlainWrapPP) PostProcessAfterInitialization(c any, name string) (any, error) {
+	if w.Plan[name].After != WrapNo {
+		if x, isW := c.(*zoo.W); isW {
+			c = x.Target
+		}
+		w.serial++
+		x := &zoo.W{Target: c, TargetID: -1, Serial: 1000 + w.serial, When: "after"}
+		w.Made = append(w.Made, x)
+		return x, nil
+	}
+	return c, nil
+}
